@@ -49,6 +49,8 @@ def run_isolated(d, checks, tier):
             sigs = [l.strip() for l in r.stdout.splitlines() if l.strip().startswith('signature:')]
             res['checks'][c] = {'exit': r.returncode, 'wall_s': round(time.time() - t, 1), 'violations': r.stdout.count('VIOLATION property='),
                                 'signatures': sorted(set(sigs))[:12], 'tail': r.stdout.strip().splitlines()[-1:]}
+            with open(os.path.join(out, '%s_%s.log' % (c, tier)), 'w') as fh:
+                fh.write(r.stdout)
             print('%s %s: exit %d, %d violation lines, %.0fs' % (mid, c, r.returncode, res['checks'][c]['violations'], time.time() - t), flush=True)
     finally:
         sh(['git', '-C', REPO, 'worktree', 'remove', '--force', wt])
